@@ -492,6 +492,27 @@ def memo_sound(L, repo, rule, modnames):
             L.ob(rule, mod.rel, fn, "@%s: the memoised value depends on no attribute that is stored after construction" % deco,
                  {}, {k: sorted(v)[:3] for k, v in sorted(writers.items())}, not writers, fd.lineno)
             L.ob(rule, mod.rel, fn, "@%s: the memoised value is not random" % deco, [], rnd[:3], not rnd, fd.lineno)
+            # a cached MUTABLE object is one object for every caller with the same arguments: what one caller changes
+            # in place (request.insert(...), buf += ...) the next one finds changed
+            mut = []
+            for r_ in [x for x in _ast.walk(fd) if isinstance(x, _ast.Return) and x.value is not None]:
+                v_ = r_.value
+                seen_n = set()
+                while isinstance(v_, _ast.Name) and v_.id not in seen_n:
+                    seen_n.add(v_.id)
+                    defs_ = [x for x in _ast.walk(fd) if isinstance(x, _ast.Assign) and any(isinstance(t, _ast.Name) and t.id == v_.id for t in x.targets)
+                             and x.lineno <= r_.lineno]
+                    if not defs_:
+                        break
+                    # (straight-line code: the binding closest above the return; any of several bindings being mutable is enough)
+                    defs_.sort(key=lambda x: x.lineno)
+                    v_ = defs_[-1].value
+                if isinstance(v_, (_ast.List, _ast.Dict, _ast.Set, _ast.ListComp, _ast.DictComp, _ast.SetComp)):
+                    mut.append(canon(r_.value)[:40] + " (a " + type(v_).__name__.lower() + ")")
+                elif isinstance(v_, _ast.Call) and (canon(v_.func) in ("list", "dict", "set", "bytearray", "array")
+                                                   or (isinstance(v_.func, _ast.Attribute) and v_.func.attr in ("split", "rsplit", "splitlines", "copy"))):
+                    mut.append(canon(r_.value)[:40] + " (built by %s)" % canon(v_.func)[-20:])
+            L.ob(rule, mod.rel, fn, "@%s: what is handed out of the cache is immutable" % deco, [], mut[:3], not mut, fd.lineno)
     return n
 
 
@@ -609,5 +630,28 @@ def instance_state(L, repo, rule, modname, clsname, what):
         good = all(o[0] for o in oks) and any(o[2] for o in oks)
         L.ob(rule, mod.rel, fn, "%s: `%s` (mutated in place by %s) is created per instance by the constructor" % (what, A, mutated[A][0]),
              "a fresh container on every path through __init__", [o[1] for o in oks] + ([] if any(o[2] for o in oks) else ["not on every path"]), good, stores[0].lineno)
+    # objects with identity (events, locks, queues, threads) built once in the class body and used through self: one
+    # object for every instance unless __init__ replaces it
+    IMMUTABLE_CTORS = {"int", "str", "bytes", "tuple", "frozenset", "range", "float", "bool", "re.compile", "struct.Struct",
+                       "namedtuple", "collections.namedtuple", "property", "staticmethod", "classmethod", "array", "bytearray"}
+    for st in ci.node.body:
+        if not (isinstance(st, _ast.Assign) and isinstance(st.value, _ast.Call)):
+            continue
+        ctor = canon(st.value.func)
+        if ctor in IMMUTABLE_CTORS or ctor.split(".")[-1][:1].islower() and ctor.split(".")[-1] not in ("dict", "list", "set", "deque"):
+            continue
+        for t in st.targets:
+            if not isinstance(t, _ast.Name) or t.id in mutated:
+                continue
+            A = t.id
+            used = [x for m_ in ci.methods.values() for x in _ast.walk(m_)
+                    if isinstance(x, _ast.Call) and isinstance(x.func, _ast.Attribute) and canon(x.func.value) == "self." + A]
+            if not used:
+                continue
+            own = any(isinstance(x, _ast.Attribute) and x.attr == A and isinstance(x.ctx, _ast.Store) and isinstance(x.value, _ast.Name)
+                      and x.value.id == "self" for x in _ast.walk(init))
+            n += 1
+            L.ob(rule, mod.rel, fn, "%s: `%s` (an object with identity, used as %s) belongs to the instance" % (what, A, canon(used[0])[:40]),
+                 "created in __init__", "class-level `%s`: one object shared by every instance" % canon(st)[:60] if not own else "replaced in __init__", own, st.lineno)
     L.floor(rule, "containers of %s mutated in place" % clsname, n, 1)
     return n
